@@ -135,13 +135,7 @@ impl InlineTypeResolver {
       .get_precomputed_enum_cache_key(schema)
       .ok()
       .flatten()
-      .or_else(|| {
-        if schema.is_relaxed_enum_pattern() {
-          return None;
-        }
-        let entries = schema.extract_enum_entries(self.context.graph().spec());
-        (!entries.is_empty()).then(|| entries_to_cache_key(&entries))
-      });
+      .or_else(|| self.value_enum_cache_key(schema));
 
     {
       let cache = self.context.cache.borrow();
@@ -253,10 +247,7 @@ impl InlineTypeResolver {
       .get_precomputed_enum_cache_key(schema)
       .ok()
       .flatten()
-      .or_else(|| {
-        let entries = schema.extract_enum_entries(self.context.graph().spec());
-        (!entries.is_empty()).then(|| entries_to_cache_key(&entries))
-      });
+      .or_else(|| self.value_enum_cache_key(schema));
     let registration = self
       .context
       .cache
@@ -271,6 +262,26 @@ impl InlineTypeResolver {
       .commit_registration(registration, vec![], named_type);
 
     Ok(Some(ConversionOutput::with_inline_types(final_name, generated)))
+  }
+
+  /// Computes the enum cache key of a schema that is nothing but a set of values.
+  ///
+  /// A union with a variant that contributes no value (a plain `integer`, an
+  /// object, a freeform string) accepts more than its `const`/`enum` variants,
+  /// so it must not share a type with the enum over those values.
+  fn value_enum_cache_key(&self, schema: &ObjectSchema) -> Option<Vec<String>> {
+    let spec = self.context.graph().spec();
+    let has_open_variant = schema.enum_values.is_empty()
+      && schema.const_value.is_none()
+      && schema
+        .union_variants()
+        .filter_map(|v| v.resolve(spec).ok())
+        .any(|v| v.const_value.is_none() && v.enum_values.is_empty());
+    if has_open_variant {
+      return None;
+    }
+    let entries = schema.extract_enum_entries(spec);
+    (!entries.is_empty()).then(|| entries_to_cache_key(&entries))
   }
 
   /// Internal cache-aware resolution with pluggable generation logic.
@@ -316,10 +327,7 @@ impl InlineTypeResolver {
       .get_precomputed_enum_cache_key(schema)
       .ok()
       .flatten()
-      .or_else(|| {
-        let entries = schema.extract_enum_entries(self.context.graph().spec());
-        (!entries.is_empty()).then(|| entries_to_cache_key(&entries))
-      });
+      .or_else(|| self.value_enum_cache_key(schema));
     let registration = self
       .context
       .cache
